@@ -151,6 +151,10 @@ def body(ctx):
         tname = rng.choice(["Identity", "Identity", "Log", "BoxCox2", "Reciprocal", "Sinh"])
         positive = tname in ("Log", "BoxCox2", "Reciprocal")
         o, s, gkind = gen_series(rng, n, positive)
+        # a common positive magnitude: the property's non-degeneracy condition is relative, so tiny and huge data count
+        mag = rng.choice([1.0, 1.0, 1.0, 1e-6, 1e-4, 1e3, 1e5]) if rng.random() < 0.5 else 1.0
+        if mag != 1.0:
+            o, s, gkind = o * mag, s * mag, gkind + f"/x{mag:g}"
         trans, tp = make_trans(tname)
         excl = rng.random() < 0.5
         holes = []
@@ -349,17 +353,19 @@ def body(ctx):
             vm = metrics.nse(o, np.full(n, np.mean(o)))
             if not abs(vm) <= 1e-9 * cond:
                 ctx.finding("nse/mean_sim_not_0", "NSE of the mean simulation is not 0", {**case, "value": float(vm)})
-            a, b = rng.choice([-3.0, 0.5, 2.0]), rng.choice([-10.0, 0.0, 4.0])
+            a, b = rng.choice([-3.0, 0.5, 2.0]), rng.choice([-10.0, 0.0, 4.0]) * float(np.max(np.abs(o)))
             va = metrics.nse(a * o + b, a * s + b)
-            if np.isfinite(v) and not sclose(float(va), float(v), cond * (1 + abs(b)), 1e-9):
+            if np.isfinite(v) and not sclose(float(va), float(v), cond * (1 + abs(b) / float(np.max(np.abs(o)))), 1e-9):
                 ctx.finding("nse/not_affine_invariant", "NSE changes under a common affine map", {**case, "a": a, "b": b, "values": [float(v), float(va)]})
             c = rng.choice([0.25, 3.0, 1000.0])
             for ty in ("standard", "normalised", "log"):
                 b1, b2 = metrics.bias(o, s, type=ty), metrics.bias(c * o, c * s, type=ty)
-                if not sclose(float(b1), float(b2), cond, 1e-9):
+                # the guards of the code compare with an ABSOLUTE EPS: a scaled series may fall under it (NaN + warning);
+                # which series are "degenerate" for the code is compared with the model, not judged here
+                if np.isfinite(b1) and np.isfinite(b2) and not sclose(float(b1), float(b2), cond, 1e-9):
                     ctx.finding(f"bias/{ty}/not_scale_invariant", "bias changes under a common positive scaling", {**case, "c": c, "values": [float(b1), float(b2)]})
             k2 = metrics.kge(c * o, c * s)
-            if np.isfinite(vk) and not sclose(float(vk), float(k2), cond, 1e-8):
+            if np.isfinite(vk) and np.isfinite(k2) and not sclose(float(vk), float(k2), cond, 1e-8):
                 ctx.finding("kge/not_scale_invariant", "KGE changes under a common positive scaling", {**case, "c": c, "values": [float(vk), float(k2)]})
 
     # ---------------- state history: the same arrays are edited IN PLACE between two scorings with the same transform object
@@ -392,6 +398,58 @@ def body(ctx):
             ctx.finding("score/history/stale_after_inplace_edit", "after editing the series in place, the score is not that of the edited series",
                         {"trans": tname, "params": tp, "obs": o.tolist(), "sim": s.tolist(), "nse": second[0], "nse_definition": nse_def,
                          "bias": second[1], "bias_definition": b_def, "before_edit": first})
+
+    # ---------------- level-like data: the mean is much larger than the spread (still inside the quantifier: the
+    # standard deviation is more than 1e-6 of the level).  One-pass formulas cancel catastrophically here, the
+    # definitions evaluated on centred data do not: the real code, the model and the definition agree to ~1e-13.
+    for it in range(ctx.scale(200, 2000)):
+        n = rng.choice([2, 3, 5, 8, 13, 30, 60])
+        z = np.array([rng.gauss(0, 1) for _ in range(n)])
+        if np.std(z) < 0.2:
+            z[0] += 1.0
+        zs = rng.choice([z.copy(), z + np.array([rng.gauss(0, 0.5) for _ in range(n)]), 0.5 * z, z[::-1].copy()])
+        tname = rng.choice(["Identity", "Identity", "Log"])
+        if tname == "Identity":
+            lev = rng.choice([1e3, 1e4, 1e5, 3e5]) * rng.choice([1, -1])
+            o, sm, tp = lev + z, lev + zs, {}
+            trans = transform.Identity()
+        else:
+            # flows of order 1 under a log with a large shift: the transformed series is log(nu) + x/nu + ...
+            tp = {"nu": rng.choice([2e3, 2e4, 1e5])}
+            o, sm = np.abs(z) + 0.1, np.abs(zs) + 0.1
+            trans = transform.get_transform("Log", **tp)
+        to, ts = trans.forward(o), trans.forward(sm)
+        if np.std(to) <= 3e-6 * abs(np.mean(to)) or np.std(ts) <= 3e-6 * abs(np.mean(ts)):
+            continue
+        case = {"obs": o.tolist(), "sim": sm.tolist(), "trans": tname, "params": tp, "excludenull": False, "gen": "level"}
+        lvl = abs(np.mean(to)) / np.std(to)
+        with warnings.catch_warnings():
+            warnings.simplefilter("ignore")
+            vk, vn = float(metrics.kge(o, sm, trans)), float(metrics.nse(o, sm, trans))
+            vc = float(metrics.corr(o, sm, trans, stat="mean"))
+            kp, np_, cp = float(metrics.kge(o, o, trans)), float(metrics.nse(o, o, trans)), float(metrics.corr(o, o, trans, stat="mean"))
+            nm = float(metrics.nse(o, trans.backward(np.full(n, np.mean(to))), trans)) if tname == "Identity" else 0.0
+        reqs.append(f"kge {C.f2h(EPS)} {C.flist(to)} {C.flist(ts)}")
+        checks.append(("level", vk, 1.0, case))
+        reqs.append(f"nse {C.flist(to)} {C.flist(ts)}")
+        checks.append(("level", vn, 1.0, case))
+        reqs.append(f"corr {C.f2h(EPS)} {C.flist(to)} {C.flist(ts)}")
+        checks.append(("level", vc, 1.0, case))
+        ctx.count(("level", tname, tuple(to), tuple(ts)), True, "level/" + tname, sample={"level_over_std": float(lvl), **{k: case[k] for k in ("trans", "params")}})
+        for nm_, v, want in (("kge", kp, 1.0), ("nse", np_, 1.0), ("corr", cp, 1.0), ("nse_mean_sim", nm, 0.0)):
+            if not abs(v - want) <= 1e-9:
+                ctx.finding(f"{nm_.split('_')[0]}/perfect_not_{want:g}" if nm_ != "nse_mean_sim" else "nse/mean_sim_not_0",
+                            f"{nm_}: a perfect simulation (or the observed mean) does not score {want:g} on level-like data",
+                            {**case, "value": v, "level_over_std": float(lvl)})
+        # definition on centred data (independent of the code and of the model)
+        co, cs = to - np.mean(to), ts - np.mean(ts)
+        rdef = float(np.sum(co * cs) / math.sqrt(np.sum(co * co) * np.sum(cs * cs)))
+        kdef = 1 - math.sqrt((1 - np.mean(ts) / np.mean(to)) ** 2 + (1 - math.sqrt(np.sum(cs * cs) / np.sum(co * co))) ** 2 + (1 - rdef) ** 2)
+        ndef = 1 - float(np.sum((to - ts) ** 2) / np.sum(co * co))
+        for nm_, v, want in (("kge", vk, kdef), ("nse", vn, ndef), ("corr", vc, rdef)):
+            if not abs(v - want) <= 1e-9 * max(1.0, abs(want)):
+                ctx.finding(f"{nm_}/not_definition_on_level_data", f"{nm_} differs from its definition on level-like data",
+                            {**case, "value": v, "definition": want, "level_over_std": float(lvl)})
 
     # ---------------- confusion matrix
     for it in range(ctx.scale(500, 5000)):
@@ -489,6 +547,9 @@ def body(ctx):
                 mv = None if rep == "none" else (C.h2f(rep.split(" ")[1]) if rep.startswith("some") else "?")
                 iv = None if impl != impl else impl
                 ok = mv != "?" and sclose(iv, mv, cond, 2e-10)
+        elif kind == "level":
+            mv = C.h2f(rep.split(" ")[-1]) if rep != "none" else float("nan")
+            ok = (impl != impl and mv != mv) or abs(impl - mv) <= 1e-9 * max(1.0, abs(mv))
         elif kind == "nse":
             ok = sclose(impl, C.h2f(rep), cond)
         elif kind == "conf":
